@@ -48,15 +48,14 @@ def ev(sv, env):
         return ev(sv[1], env)
     if k_ == 'cast':
         return ev(sv[2], env)
-    if k_ == 'sym':
+    if k_ in ('sym', 'proj'):
         r = render(sv)
         if r in env:
             return env[r]
-        raise NoValue(r)
-    if k_ == 'proj':
-        r = render(sv)
-        if r in env:
-            return env[r]
+        if '__sym__' in env:
+            v = env['__sym__'](r)
+            if v is not None:
+                return v
         raise NoValue(r)
     if k_ == 'un' and sv[1] == 'Not':
         return 0 if ev(sv[2], env) else 1
